@@ -168,6 +168,9 @@ def reaction_table():
             "cease": lambda b, c: b.notif(c, 6, 4, [1, 2]),
             "notif": lambda b, c: b.notif(c, 3, 1, [9]),
             "shortnotif": lambda b, c: b.send(c, frame(3, [6])),
+            "maxcease": lambda b, c: b.notif(c, 6, 4, [5] * 4075),       # a message of exactly 4096 octets
+            "maxnotif": lambda b, c: b.notif(c, 3, 1, [9] * 4075),
+            "maxupdate": lambda b, c: b.upd(c, [3] * 4077),
             "eof": lambda b, c: b.rclose(c), "reset": lambda b, c: b.rreset(c)}
     for st in STATES:
         for d in DIRS:
@@ -250,6 +253,22 @@ def collision():
                 keep = "out" if ip4("10.0.0.5") > ip4(rid2) else "in"
                 b.ka(cs[keep]).upd(cs[keep]).adv(1)
                 out.append(b.tag("collision", "newid").build())
+    # the connection that was kept dies before it is Established: a non-passive peer dials again after idle-hold
+    for rn, lid, rid, las, ras in rel[:2]:
+        for first_open in DIRS:
+            for how in ("eof", "reset", "cease"):
+                b = Sb("col-keptdies-%s-%s-%s" % (rn, first_open, how), [peer(localAS=las, remoteAS=ras, idleHold=sec(2))], routerID=lid)
+                b.start()
+                cs = {"out": b.dial_ok(), "in": b.connect()}
+                for d in ((first_open,) + tuple(x for x in DIRS if x != first_open)):
+                    b.open(cs[d], rid=rid)
+                dominant = ip4(lid) > ip4(rid) or (lid == rid and las > ras)
+                keep = "out" if dominant else "in"
+                {"eof": lambda: b.rclose(cs[keep]), "reset": lambda: b.rreset(cs[keep]), "cease": lambda: b.notif(cs[keep], 6, 4)}[how]()
+                b.advu(sec(2) - 1).advu(1).adv(1)
+                c3 = b.dial_ok()
+                b.open(c3, rid=rid).ka(c3).adv(1)
+                out.append(b.tag("collision", "keptdies", "pace").build())
     # established first: KEEPALIVE on the first connection before the second OPEN
     for rn, lid, rid, las, ras in rel[:2]:
         for first in DIRS:
@@ -1859,6 +1878,19 @@ def gated_update_eof():
             b.add("release", peer="p1", call="Update", w=1)
             b.adv(1)
             out.append(b.tag("seg", "gate").build())
+    # an unexpected message and then a FIN arrive while the handler is busy: the FSM Error is still sent
+    for d in DIRS:
+        for what in ("open", "badtype"):
+            for rep in range(3):
+                b = Sb("updeof-unexp-%s-%s-%d" % (what, d, rep), [peer(gates=["Update#1"])])
+                b.start()
+                c = b.establish(direction=d)
+                b.upd(c, [1])
+                b.send(c, open_msg(65002, 90, ip4("10.0.0.2")) if what == "open" else frame(9, [1, 2]))
+                b.rclose(c)
+                b.adv(1).add("release", peer="p1", call="Update", w=1)
+                b.adv(1).adv(70)
+                out.append(b.tag("seg", "gate", "reply").build())
     # the remote half-closes (FIN) while a callback is still deciding: the NOTIFICATION it returns is still sent
     for d in DIRS:
         for tail in ("eof", "ka-eof", "reset"):
